@@ -121,6 +121,11 @@ def run(prog: Program, rep: Report, tier: str):
     from .c09 import rule_constructor
     rule_constructor(prog, rep, R="C11.conditioner")
     rule_frozen(prog, rep)
+    # the triangular matrix is rebuilt from the raw arrays at every unwrap (diag of the positive-constrained diagonal plus
+    # the strict triangle of the free array): masking the free array once at construction lets an update put entries on
+    # the diagonal, which then need not stay positive
+    from .c07 import rule_tri
+    rule_tri(prog, rep, R="C11.tri")
     # mixture weights stay normalised for every value of the raw array: the normaliser is recomputed from the wrapped
     # argument at every unwrap
     from .c05 import rule_mix
